@@ -15,6 +15,7 @@ import (
 	"os/exec"
 	"path/filepath"
 	"sort"
+	"strconv"
 	"strings"
 	"testing"
 
@@ -61,6 +62,11 @@ func c12Gen(l *c12Loop, inner [2]string) {
 	cv := func(e string) string {
 		if T == "int" {
 			return e
+		}
+		if T == "T" {
+			if _, err := strconv.Atoi(e); err == nil {
+				return e // a bare literal stays a constant of type T
+			}
 		}
 		return T + "(" + e + ")"
 	}
@@ -157,6 +163,14 @@ func c12Gen(l *c12Loop, inner [2]string) {
 		plain = fmt.Sprintf("%s := %s\nfor %s %s %s {\nacc++\n%s\n}", v, S, v, l.op, N, b2)
 		nat = fmt.Sprintf("%s := %s\nbegin(%d)\nfor %s && %s %s %s {\nbody(%d)\nacc++\n%s\n}", v, S, id, hdr, v, l.op, N, id, b2)
 	}
+	if T == "T" {
+		// a counter of type-parameter type: `T(10)` is not a constant (the analysis would see an
+		// opaque conversion), `var i T = 10` is
+		for _, txt := range []*string{&plain, &nat} {
+			*txt = strings.Replace(*txt, "for "+v+" := "+S+"; ", "var "+v+" T = "+S+"\nfor ; ", 1)
+			*txt = strings.Replace(*txt, v+" := "+S+"\n", "var "+v+" T = "+S+"\n", 1)
+		}
+	}
 	l.plain = strings.Replace(plain, "%INNER%", inner[0], 1)
 	l.native = strings.Replace(nat, "%INNER%", inner[1], 1)
 }
@@ -167,6 +181,25 @@ type c12Func struct {
 	loops []*c12Loop
 	plain string
 	nat   string
+	// insts: the function is generic over its counter type (`T`, constrained to integer types);
+	// the native twin runs every instantiation listed here against the one set of claims
+	insts []string
+}
+
+const c12Constraint = "type c12ints interface {\n\t~int | ~int8 | ~uint8 | ~int16 | ~uint32\n}\n\n"
+
+func c12Width(typ string) int {
+	switch typ {
+	case "int8":
+		return 8
+	case "uint8":
+		return -8
+	case "int16":
+		return 16
+	case "uint32":
+		return -32
+	}
+	return 0
 }
 
 func c12Family(thorough bool) []*c12Func {
@@ -213,6 +246,27 @@ func c12Family(thorough bool) []*c12Func {
 							c12Gen(l, [2]string{})
 							add(fmt.Sprintf("%s/%s/mirrored:%s%s'i/start=%s/step=%+d", T, shape, bound, op, start, step), []*c12Loop{l}, l.plain, l.native)
 						}
+					}
+				}
+			}
+		}
+	}
+	// counters whose type is a TYPE PARAMETER constrained to integer types: one analysis of the
+	// generic body, checked against every instantiation (a claim that holds for int may fail
+	// for uint8)
+	for _, shape := range []string{"for3", "while", "exittrue"} {
+		for _, op := range []string{"<", "<=", ">", ">=", "!="} {
+			for _, step := range []int{1, 3, -1, -3} {
+				for _, start := range []string{"0", "10", "a"} {
+					for _, bound := range []string{"0", "7", "b"} {
+						l := &c12Loop{id: 0, v: "i", typ: "T", start: start, bound: bound, op: op, step: step, shape: shape}
+						c12Gen(l, [2]string{})
+						n++
+						name := fmt.Sprintf("L%05d", n)
+						f := &c12Func{name: name, key: fmt.Sprintf("generic[T]/%s/i%s%s/start=%s/step=%+d", shape, op, bound, start, step), loops: []*c12Loop{l}, insts: []string{"int", "uint8", "int8", "uint32"}}
+						f.plain = fmt.Sprintf("func %s[T c12ints](a, b int) int {\nacc := 0\n%s\nreturn acc\n}\n", name, l.plain)
+						f.nat = fmt.Sprintf("func %s[T c12ints](a, b int) int {\nacc := 0\n%s\nreturn acc\n}\n", name, l.native)
+						out = append(out, f)
 					}
 				}
 			}
@@ -590,7 +644,7 @@ func TestVerifC12(t *testing.T) {
 	}
 	// 1. analysis
 	var src strings.Builder
-	src.WriteString("package loops\n\n")
+	src.WriteString("package loops\n\n" + c12Constraint)
 	for _, f := range mine {
 		src.WriteString(f.plain + "\n")
 	}
@@ -609,7 +663,7 @@ func TestVerifC12(t *testing.T) {
 	}
 	// 2. claims -> native twin
 	var nat strings.Builder
-	nat.WriteString("package main\n\nimport (\n\t\"bufio\"\n\t\"fmt\"\n\t\"os\"\n)\n")
+	nat.WriteString("package main\n\nimport (\n\t\"bufio\"\n\t\"fmt\"\n\t\"os\"\n)\n\n" + c12Constraint)
 	var tab strings.Builder
 	tab.WriteString("var table = []entry{\n")
 	claimsText := map[string][]string{}
@@ -631,7 +685,12 @@ func TestVerifC12(t *testing.T) {
 		}
 		walk(info.Loops)
 		nat.WriteString(f.nat + "\n")
-		fmt.Fprintf(&tab, "\t{%q, %s, []claim{\n", f.name, f.name)
+		type claimRow struct {
+			id        int
+			typ       string
+			ivf, trip string
+		}
+		var rows []claimRow
 		for _, l := range all {
 			// which source loop is this? the induction variable's source name decides
 			var phis []*ssa.Phi
@@ -652,16 +711,6 @@ func TestVerifC12(t *testing.T) {
 				}
 				if sl == nil {
 					continue // an induction variable that is not a loop counter of the template (e.g. acc)
-				}
-				width := 0
-				if sl.typ == "int8" {
-					width = 8
-				} else if sl.typ == "uint8" {
-					width = -8
-				} else if sl.typ == "int16" {
-					width = 16
-				} else if sl.typ == "uint32" {
-					width = -32
 				}
 				st, ok1 := c12Expr(iv.Start)
 				sp, ok2 := c12Expr(iv.Step)
@@ -685,7 +734,7 @@ func TestVerifC12(t *testing.T) {
 					}
 				}
 				claimsText[f.name] = append(claimsText[f.name], desc)
-				fmt.Fprintf(&tab, "\t\t{%d, %d, %s, %s},\n", sl.id, width, ivf, tripf)
+				rows = append(rows, claimRow{sl.id, sl.typ, ivf, tripf})
 			}
 		}
 		// what ToSCEV says about every header phi (the description other passes build on)
@@ -711,7 +760,6 @@ func TestVerifC12(t *testing.T) {
 				if sl == nil {
 					continue
 				}
-				width := map[string]int{"int8": 8, "uint8": -8, "int16": 16, "uint32": -32}[sl.typ]
 				st, ok1 := c12Expr(rec.Start)
 				sp, ok2 := c12Expr(rec.Step)
 				if !ok1 || !ok2 {
@@ -719,7 +767,7 @@ func TestVerifC12(t *testing.T) {
 				}
 				r.Count("toscev_iv_claims", 1)
 				claimsText[f.name] = append(claimsText[f.name], fmt.Sprintf("ToSCEV describes %s as {%s, +, %s}", phi.Comment, rec.Start.String(), rec.Step.String()))
-				fmt.Fprintf(&tab, "\t\t{%d, %d, func(a, b int, k int64) val { return add(%s, mul(%s, lit(k))) }, nil},\n", sl.id, width, st, sp)
+				rows = append(rows, claimRow{sl.id, sl.typ, fmt.Sprintf("func(a, b int, k int64) val { return add(%s, mul(%s, lit(k))) }", st, sp), "nil"})
 			}
 		}
 		// what the CANONICAL IR says: every header phi it replaces by a recurrence text is a claim
@@ -739,7 +787,6 @@ func TestVerifC12(t *testing.T) {
 			if sl == nil {
 				continue
 			}
-			width := map[string]int{"int8": 8, "uint8": -8, "int16": 16, "uint32": -32}[sl.typ]
 			// the recurrence is a statement about the evaluations of ONE loop header: the one the
 			// counter's phi sits in (the IR prints it as the @bN tag of the text)
 			if rec.Loop != nil && rec.Loop.Header != nil && rec.Loop.Header != phi.Block() {
@@ -753,9 +800,27 @@ func TestVerifC12(t *testing.T) {
 			}
 			r.Count("ir_iv_claims", 1)
 			claimsText[f.name] = append(claimsText[f.name], fmt.Sprintf("canonical IR prints %s as {%s, +, %s}", phi.Comment, rec.Start.String(), rec.Step.String()))
-			fmt.Fprintf(&tab, "\t\t{%d, %d, func(a, b int, k int64) val { return add(%s, mul(%s, lit(k))) }, nil},\n", sl.id, width, st, sp)
+			rows = append(rows, claimRow{sl.id, sl.typ, fmt.Sprintf("func(a, b int, k int64) val { return add(%s, mul(%s, lit(k))) }", st, sp), "nil"})
 		}
-		tab.WriteString("\t}},\n")
+		insts := f.insts
+		if len(insts) == 0 {
+			insts = []string{""}
+		}
+		for _, inst := range insts {
+			fexpr := f.name
+			if inst != "" {
+				fexpr = f.name + "[" + inst + "]"
+			}
+			fmt.Fprintf(&tab, "\t{%q, %s, []claim{\n", f.name, fexpr)
+			for _, row := range rows {
+				typ := row.typ
+				if typ == "T" {
+					typ = inst
+				}
+				fmt.Fprintf(&tab, "\t\t{%d, %d, %s, %s},\n", row.id, c12Width(typ), row.ivf, row.trip)
+			}
+			tab.WriteString("\t}},\n")
+		}
 	}
 	tab.WriteString("}\n")
 	nat.WriteString(tab.String())
